@@ -371,6 +371,33 @@ fn primitive_names_case(cx: &mut CaseCtx, input: Input) -> CaseResult {
     Ok(())
 }
 
+// ---- orphaned elements: a file that fails to parse after defining what another file defines too -------
+
+pub const ORPHANS_TOTAL: u64 = 5 * 2 * 2;
+
+/// Two files declare the same scoped names with a doc comment lint on an inner element; one of them
+/// then runs into a syntax error inside the enclosing definition (F-01k): both file orders.
+fn orphans_case(cx: &mut CaseCtx, input: Input) -> CaseResult {
+    let idx = input.index() as usize;
+    let (shape, lint, order) = (idx % 5, (idx / 5) % 2, idx / 10);
+    let doc = ["/// {@link }", "/// @foo bar"][lint];
+    // (complete text, text with a syntax error inside the definition after the commented element)
+    let (good, broken): (String, String) = match shape {
+        0 => (format!("module M\nenum E {{\n    A(\n        {doc}\n        f: int32\n    )\n}}\n"), format!("module M\nenum E {{\n    A(\n        {doc}\n        f: int32\n    )\n    B = = 3\n}}\n")),
+        1 => (format!("module M\nstruct S {{\n    {doc}\n    f: int32\n}}\n"), format!("module M\nstruct S {{\n    {doc}\n    f: int32\n    g: :\n}}\n")),
+        2 => (format!("module M\ninterface I {{\n    {doc}\n    op(a: bool)\n}}\n"), format!("module M\ninterface I {{\n    {doc}\n    op(a: bool)\n    other(\n}}\n")),
+        3 => (format!("module M\nenum E {{\n    {doc}\n    A\n    B\n}}\n"), format!("module M\nenum E {{\n    {doc}\n    A\n    B = \n}}\n")),
+        _ => (format!("module M::N\n{doc}\nstruct S {{}}\nstruct T {{ s: S }}\n"), format!("module M::N\n{doc}\nstruct S {{}}\nstruct T {{ s: }}\n")),
+    };
+    let texts = if order == 0 { vec![good, broken] } else { vec![broken, good] };
+    cx.nontrivial = true;
+    cx.label("orphaned-elements-of-a-file-that-failed-to-parse");
+    cx.sample_with(|| json!({"files": texts}));
+    let (_w, e) = pipeline(&texts, &SliceOptions::default())?;
+    check!(e > 0, "syntax-error-not-reported", "{}", texts.join("\n=====\n"));
+    Ok(())
+}
+
 // ---- raw source text (what a byte-level fuzzer mutates best) -----------------------------------------
 
 /// The input bytes are the source itself: files separated by U+001E, decoded lossily.  Random
@@ -499,7 +526,7 @@ fn thread_cpu_time() -> Duration {
     }
 }
 
-pub const GROWTH_SHAPES: u64 = 6;
+pub const GROWTH_SHAPES: u64 = 8;
 
 fn growth_probe(cx: &mut CaseCtx, input: Input) -> CaseResult {
     let which = input.index();
@@ -543,6 +570,15 @@ fn growth_probe(cx: &mut CaseCtx, input: Input) -> CaseResult {
             text.push_str(&format!("struct S{depth} {{ back: S{depth}? }}\n"));
             (true, "exponential-time/paths-into-a-cycle")
         }
+        6 | 7 => {
+            // a dictionary key that is a dense acyclic graph of compact structs (F-01j); valid, and
+            // with a leaf that is no legal key
+            for i in 0..depth {
+                text.push_str(&format!("compact struct K{i} {{ a: K{}, b: K{} }}\n", i + 1, i + 1));
+            }
+            text.push_str(&format!("compact struct K{depth} {{ a: {} }}\nstruct U {{ m: Dictionary<K0, bool> }}\n", if which == 6 { "int32" } else { "float64" }));
+            (false, "exponential-time/dictionary-key-paths")
+        }
         _ => {
             // dense acyclic graph of aliases of anonymous types, used by a struct
             for i in 0..depth {
@@ -565,6 +601,8 @@ fn growth_probe(cx: &mut CaseCtx, input: Input) -> CaseResult {
     let errors = error_codes(&diagnostics_of(state, &Default::default()));
     if expect_cycle {
         check!(errors.iter().any(|c| c == "E032"), "cycle-next-to-dense-graph-accepted", "codes {errors:?}");
+    } else if which == 7 {
+        check!(!errors.is_empty(), "illegal-key-accepted", "codes {errors:?}");
     } else {
         check!(errors.is_empty(), "dense-graph-rejected", "codes {errors:?}");
     }
@@ -633,6 +671,7 @@ impl Check for C01 {
         vec![
             Family::enumerate("growth", GROWTH_SHAPES, 1, growth_probe),
             Family::enumerate("primitive-names", PRIMITIVE_NAMES_TOTAL, 1, primitive_names_case),
+            Family::enumerate("orphans", ORPHANS_TOTAL, 1, orphans_case),
             Family::enumerate("types", 22 * 14 * 2 * 2, 1, types_case),
             // (d) containment / alias / inheritance cycles: the C05 enumerators, judged here only for
             // "a verdict within the bound" (a hang is seen by the watchdog)
